@@ -961,6 +961,11 @@ func (s *Sim) Seal(b *types.Block, miner types.Address) {
 func (s *Sim) NextTimestamp() time.Time {
 	med := s.MedianTime()
 	last := s.Times[len(s.Times)-1]
+	// block timestamps have second resolution on the wire: the earliest admissible
+	// whole second is the median rounded up
+	if med.Nanosecond() != 0 {
+		med = med.Truncate(time.Second).Add(time.Second)
+	}
 	switch s.Rng.Intn(6) {
 	case 0:
 		return med // the earliest admissible
